@@ -54,7 +54,7 @@ def reference_operators():
         if not m:
             continue
         c = m.group(1)
-        for ty, lit in re.findall(r'L T_(\w+) "([^"]+)"', line):
+        for ty, lit in re.findall(r'(?<![A-Z])L T_(\w+) "([^"]+)"', line):
             out.append((lit, names.get(ty, ty)))
         for ty in re.findall(r'L1 T_(\w+)', line):
             out.append((c, names.get(ty, ty)))
@@ -193,6 +193,7 @@ def run_inputs(ctx, proved, model, implrun, inputs, g, replaying=False):
         f_pump = ex.submit(V.run_batch, [implrun, "pump"], hexes, hang_s=2, max_failures=3)
         f_mlex = ex.submit(V.run_batch, [model], ["lex " + h for h in hexes], hang_s=60, mem_kb=big)
         f_mpump = ex.submit(V.run_batch, [model], ["pump " + h for h in hexes], hang_s=60, mem_kb=big)
+        f_getline = ex.submit(V.run_batch, [implrun, "getline"], hexes, hang_s=2, max_failures=3)
         f_parse = {m: ex.submit(V.run_batch, [implrun, "parse"], [m + " " + h for h in hexes], hang_s=2, max_failures=3)
                    for m in MODES}
         # the composed model bytes -> lexer -> pump -> parser model (Model/LexParse.v); strconv.ParseFloat verdicts from Go
@@ -201,6 +202,7 @@ def run_inputs(ctx, proved, model, implrun, inputs, g, replaying=False):
                               [((f if f and not first_fail(f) else "-") + " " + h) for f, h in zip(i_floats, hexes)],
                               hang_s=120, mem_kb=big)
         i_lex, i_pump, m_lex, m_pump = f_lex.result(), f_pump.result(), f_mlex.result(), f_mpump.result()
+        i_getline = f_getline.result()
         i_parse = {m: f_parse[m].result() for m in MODES}
 
     def replay(lab, d, **kw):
@@ -209,6 +211,7 @@ def run_inputs(ctx, proved, model, implrun, inputs, g, replaying=False):
         return r
 
     agree_lex = agree_pump = 0
+    getline_ok = 0
     agree_parse = {}
     tok_types = {}
     n_tokens = 0
@@ -237,6 +240,15 @@ def run_inputs(ctx, proved, model, implrun, inputs, g, replaying=False):
                 ctx.violation(what, replay(lab, d, impl=toks, model=ml))
             else:
                 agree_lex += 1
+        # ---- GetLine / LineCount (what the CLI prints under a located diagnostic): oracle on the raw bytes
+        gl = i_getline[k]
+        if first_fail(gl):
+            if cls(gl) != "skipped":
+                ctx.violation("GetLine/LineCount %s on input (%s)" % (cls(gl), lab), replay(lab, d, impl=gl))
+        elif not gl.startswith("good"):
+            ctx.violation("GetLine does not return the source line (%s): %s" % (lab, gl[4:200]), replay(lab, d, impl=gl))
+        else:
+            getline_ok += 1
         # ---- pump
         if first_fail(ip):
             if cls(ip) != "skipped":
@@ -332,10 +344,10 @@ def run_inputs(ctx, proved, model, implrun, inputs, g, replaying=False):
     ctx.samples = [{"label": inputs[i][0], "source": inputs[i][1][:160].decode("utf-8", "replace"),
                     "tokens": (i_lex[i] or "")[:300]} for i in pick]
     ctx.coverage.update({
-        "evaluations": len(inputs) * 8,
+        "evaluations": len(inputs) * 9,
         "distinct_nontrivial": len(distinct),
         "inputs": len(inputs), "input_distribution": dict(sorted(dist.items(), key=lambda kv: -kv[1])),
-        "lex_agree": agree_lex, "pump_agree": agree_pump, "parse_agree": agree_parse, "tokens_checked_by_oracle": n_tokens,
+        "getline_ok": getline_ok, "lex_agree": agree_lex, "pump_agree": agree_pump, "parse_agree": agree_parse, "tokens_checked_by_oracle": n_tokens,
         "token_types_seen": dict(sorted(tok_types.items(), key=lambda kv: -kv[1])),
         "parse_outcomes": outcomes, "parse_error_token_types": dict(sorted(err_types.items(), key=lambda kv: -kv[1])),
         "keywords_checked": kw_ok, "operators_checked": ops_ok, "class_probes_checked": classes_ok, "bytes_total": sum(len(d) for _, d in inputs),
